@@ -502,9 +502,13 @@ class UpdateCollection(Message):
                         withdraws = b''
                     mp_unreach = mpurnlri
 
-            yield self._message(
-                UpdateCollection.prefix(withdraws) + UpdateCollection.prefix(mp_unreach + attr + mp_reach) + announced,
-            )  # yield mpr/mpur per family
+            # nothing left for this family (its withdraws were excluded): no empty UPDATE, it would read as an EOR
+            if mp_unreach or mp_reach or withdraws or announced:
+                yield self._message(
+                    UpdateCollection.prefix(withdraws)
+                    + UpdateCollection.prefix(mp_unreach + attr + mp_reach)
+                    + announced,
+                )  # yield mpr/mpur per family
             withdraws = b''
             announced = b''
 
